@@ -53,31 +53,31 @@ PARSER_TRUST = ['the real parser is driven through process()/packet()/set_filter
 PROPS = {
     'C02': {
         'source_tie': ['UbxParser', 'Checksum'],
-        'jobs': [{'component': 'ubx', 'profile': 'grammar', 'quick': 400, 'thorough': 6000, 'exhaustive': 'both'}],
+        'jobs': [{'component': 'ubx', 'profile': 'grammar', 'quick': 2400, 'thorough': 6000, 'exhaustive': 'both'}],
         'exhaustive_note': 'one transition for each parser state x 256 next bytes x 3 filters x 3 continuations, black box',
         'trusted': PARSER_TRUST,
     },
     'C03': {
         'source_tie': ['UbxParser', 'Checksum'],
-        'jobs': [{'component': 'ubx', 'profile': 'wild', 'quick': 400, 'thorough': 6000, 'exhaustive': 'both'}],
+        'jobs': [{'component': 'ubx', 'profile': 'wild', 'quick': 2400, 'thorough': 6000, 'exhaustive': 'both'}],
         'exhaustive_note': 'one transition for each parser state x 256 next bytes x 3 filters x 3 continuations, black box',
         'trusted': PARSER_TRUST,
     },
     'C09': {
         'source_tie': ['UbxParser', 'NmeaParser'],
-        'jobs': [{'component': 'ubx', 'profile': 'chunks', 'quick': 150, 'thorough': 2500},
-                 {'component': 'nmea', 'profile': 'chunks', 'quick': 200, 'thorough': 3000}],
+        'jobs': [{'component': 'ubx', 'profile': 'chunks', 'quick': 900, 'thorough': 2500},
+                 {'component': 'nmea', 'profile': 'chunks', 'quick': 1500, 'thorough': 3000}],
         'trusted': PARSER_TRUST,
     },
     'C11': {
         'source_tie': ['UbxParser'],
-        'jobs': [{'component': 'ubx', 'profile': 'ops', 'quick': 400, 'thorough': 6000, 'exhaustive': 'thorough'}],
+        'jobs': [{'component': 'ubx', 'profile': 'ops', 'quick': 3000, 'thorough': 6000, 'exhaustive': 'thorough'}],
         'trusted': PARSER_TRUST + ['object identity of payload buffers: explicit heap model (Model/HeapParser), tied by re-reading every '
                                    'handed-out payload object at the end of each history'],
     },
     'C16': {
         'source_tie': ['NmeaParser'],
-        'jobs': [{'component': 'nmea', 'profile': 'count', 'quick': 600, 'thorough': 10000, 'exhaustive': 'both'}],
+        'jobs': [{'component': 'nmea', 'profile': 'count', 'quick': 4000, 'thorough': 10000, 'exhaustive': 'both'}],
         'exhaustive_note': 'one transition for each of the 5 NMEA states (checksum about to match / not) x 256 bytes x 4 continuations',
         'trusted': PARSER_TRUST,
     },
@@ -85,94 +85,95 @@ PROPS = {
         'source_tie': ['UbxFrame', 'Checksum'],
         'jobs': [{'component': 'frame', 'profile': 'quick', 'quick': 60, 'thorough': 400},
                  {'component': 'frame', 'profile': 'all-lengths', 'quick': 0, 'thorough': 1},
-                 {'component': 'ck', 'profile': 'quick', 'quick': 40, 'thorough': 200}],
+                 {'component': 'ck', 'profile': 'quick', 'quick': 120, 'thorough': 200}],
         'exhaustive_note': 'thorough: every payload length 0..65535 once (payload expanded from (length, seed) on both sides, digests compared)',
         'trusted': ['frames are ad-hoc UbxFrame subclasses with arbitrary CID; `data` is assigned directly, to_bytes() is the method under test'],
     },
     'C15': {
         'source_tie': ['Checksum'],
-        'jobs': [{'component': 'ck', 'profile': 'quick', 'quick': 300, 'thorough': 0},
+        'jobs': [{'component': 'ck', 'profile': 'quick', 'quick': 900, 'thorough': 0},
                  {'component': 'ck', 'profile': 'all-states', 'quick': 0, 'thorough': 3000}],
         'exhaustive_note': 'quick: add() from the 256 x 8 states (a, b in 8 values) x 256 bytes; thorough: all 65536 states x 256 bytes '
                            '(each state reached from reset() by its two-byte prefix, digests per row compared)',
         'trusted': ['Checksum is driven through add()/reset()/value()/matches() only'],
     },
     'C07': {
-        'jobs': [{'component': 'fields', 'profile': 'decode', 'quick': 25, 'thorough': 400},
-                 {'component': 'valset', 'profile': 'valget', 'quick': 150, 'thorough': 3000}],
+        'jobs': [{'component': 'fields', 'profile': 'decode', 'quick': 30, 'thorough': 400},
+                 {'component': 'valset', 'profile': 'valget', 'quick': 450, 'thorough': 3000}],
         'exhaustive_note': 'count byte 0..255 of CFG-GNSS and ESF-STATUS, 0..7 of CFG-ESFLA, 0..32 MON-VER extensions; every byte position of every fixed layout with only its top bit set',
         'trusted': ['field tables are read from frame.f._fields / Item.order / Item.fmt / length (named in the property anchors)'],
         'assumptions': ['text fields: ASCII payload bytes only (R5); well-formed = exactly the prescribed length (R6)'],
     },
     'C08': {
-        'jobs': [{'component': 'fields', 'profile': 'decode', 'quick': 25, 'thorough': 400},
-                 {'component': 'assign', 'profile': 'rmw', 'quick': 20, 'thorough': 60}],
+        'jobs': [{'component': 'fields', 'profile': 'decode', 'quick': 30, 'thorough': 400},
+                 {'component': 'assign', 'profile': 'rmw', 'quick': 24, 'thorough': 60},
+                 {'component': 'valset', 'profile': 'valget', 'quick': 300, 'thorough': 3000}],
         'trusted': ['fields are assigned through attribute access on frame.f, re-encoded by frame.pack()'],
         'assumptions': ['text fields: ASCII only (R5); in-range assignment = fits the field type, text without trailing NUL'],
     },
     'C13': {
-        'jobs': [{'component': 'key', 'profile': 'codec', 'quick': 250, 'thorough': 5000}],
+        'jobs': [{'component': 'key', 'profile': 'codec', 'quick': 750, 'thorough': 5000}],
         'exhaustive_note': 'every published key; size code 0..7 x available value bytes 0..9 x 4 value patterns x reserved bits set/clear',
         'assumptions': ['R2: in-range is relative to the signedness the key table gives the key; R12: size codes 1..5'],
     },
     'C14': {
-        'jobs': [{'component': 'key', 'profile': 'codec', 'quick': 250, 'thorough': 5000},
-                 {'component': 'valset', 'profile': 'valget', 'quick': 150, 'thorough': 3000}],
+        'jobs': [{'component': 'key', 'profile': 'codec', 'quick': 750, 'thorough': 5000},
+                 {'component': 'valset', 'profile': 'valget', 'quick': 450, 'thorough': 3000}],
         'exhaustive_note': 'size code 0..7 x available value bytes 0..9 x 4 value patterns x reserved bits set/clear',
         'assumptions': ['R3: 1-bit items are encoded by truthiness; R4: 1-3 trailing bytes of a VALGET response are not a pair'],
     },
     'C17': {
-        'jobs': [{'component': 'gnss', 'profile': 'helpers', 'quick': 300, 'thorough': 6000},
-                 {'component': 'helper', 'profile': 'helpers', 'quick': 40, 'thorough': 1500}],
+        'jobs': [{'component': 'gnss', 'profile': 'helpers', 'quick': 2400, 'thorough': 6000},
+                 {'component': 'helper', 'profile': 'helpers', 'quick': 600, 'thorough': 1500}],
         'exhaustive_note': 'set_rate_in_hz for 0..11; every permutation of every subset of <= 2 (thorough <= 3) GNSS systems',
     },
     'C04': {
-        'jobs': [{'component': 'srv', 'profile': 'mixed', 'quick': 500, 'thorough': 8000, 'project': 'result'},
-                 {'component': 'seq', 'profile': 'seq', 'quick': 120, 'thorough': 2500, 'project': 'result'}],
+        'jobs': [{'component': 'srv', 'profile': 'mixed', 'quick': 4000, 'thorough': 8000, 'project': 'result'},
+                 {'component': 'seq', 'profile': 'seq', 'quick': 1000, 'thorough': 2500, 'project': 'result'}],
         'trusted': ['back end = scripted stub (oracle-style per receive call, and buffered with arrival time-lines); virtual clock ticks/1024 s'],
         'assumptions': ['partial: the transports are stubs; every blocking receive advances the clock by at least one tick'],
     },
     'C05': {
-        'jobs': [{'component': 'srv', 'profile': 'bounds', 'quick': 400, 'thorough': 6000, 'project': 'sent+time'},
-                 {'component': 'srv', 'profile': 'mixed', 'quick': 200, 'thorough': 3000, 'project': 'sent+time'},
-                 {'component': 'seq', 'profile': 'seq', 'quick': 80, 'thorough': 1500, 'project': 'sent+time'}],
+        'jobs': [{'component': 'srv', 'profile': 'bounds', 'quick': 3000, 'thorough': 6000, 'project': 'sent+time'},
+                 {'component': 'srv', 'profile': 'mixed', 'quick': 1500, 'thorough': 3000, 'project': 'sent+time'},
+                 {'component': 'seq', 'profile': 'seq', 'quick': 600, 'thorough': 1500, 'project': 'sent+time'}],
         'trusted': ['virtual clock: time.time() of server_base replaced by ticks/1024.0 (exact in binary floating point, DESIGN.md 4.2)'],
         'assumptions': ['partial: real time is replaced by the virtual clock; transmit, flush and recover take no time; a receive takes 1..T ticks'],
     },
     'C06': {
-        'jobs': [{'component': 'seq', 'profile': 'c06', 'quick': 400, 'thorough': 8000, 'project': 'result+sent'}],
+        'jobs': [{'component': 'seq', 'profile': 'c06', 'quick': 3000, 'thorough': 8000, 'project': 'result+sent'}],
         'trusted': ['scenarios are built so that the premise holds and the premise is re-checked with the reference scanner before a scenario is used'],
         'assumptions': ['partial: as C04; "in time" = the bytes are delivered by receive calls that start before the deadline'],
     },
     'C10': {
-        'jobs': [{'component': 'seq', 'profile': 'seq', 'quick': 300, 'thorough': 6000, 'project': 'result+sent+calls'}],
+        'jobs': [{'component': 'seq', 'profile': 'seq', 'quick': 2400, 'thorough': 6000, 'project': 'result+sent+calls'}],
         'trusted': ['the buffered stub implements the contract of _flush_input(): what has arrived and was not read is dropped'],
         'assumptions': ['partial: claimed for the base class over a back end whose _flush_input() honours its contract (the serial one); '
                         'the gpsd back end inherits the no-op'],
     },
     'C12': {
-        'jobs': [{'component': 'srv', 'profile': 'mixed', 'quick': 300, 'thorough': 4000, 'project': 'sent+same'},
-                 {'component': 'tty', 'profile': 'tty', 'quick': 60, 'thorough': 1500},
-                 {'component': 'gpsdtx', 'profile': 'gpsdtx', 'quick': 60, 'thorough': 1500}],
+        'jobs': [{'component': 'srv', 'profile': 'mixed', 'quick': 2400, 'thorough': 4000, 'project': 'sent+same'},
+                 {'component': 'tty', 'profile': 'tty', 'quick': 180, 'thorough': 1500},
+                 {'component': 'gpsdtx', 'profile': 'gpsdtx', 'quick': 180, 'thorough': 1500}],
         'trusted': ['stub serial.Serial (write/baudrate/is_open recorded), stub control socket (connect/sendall/recv scripted)'],
         'assumptions': ['partial: the OS serial driver and gpsd themselves; gpsd replies are ASCII'],
     },
     'C18': {
         'source_tie': ['UbxParser', 'NmeaParser'],
-        'jobs': [{'component': 'scan', 'profile': 'scan', 'quick': 400, 'thorough': 8000}],
+        'jobs': [{'component': 'scan', 'profile': 'scan', 'quick': 3000, 'thorough': 8000}],
         'trusted': ['stub serial port with a timed byte script on the virtual clock'],
         'assumptions': ['partial: real serial timing; a read takes 1..T ticks'],
     },
     'C19': {
-        'jobs': [{'component': 'render', 'profile': 'render', 'quick': 30, 'thorough': 300},
-                 {'component': 'level', 'profile': 'level', 'quick': 150, 'thorough': 3000, 'project': 'result+sent'},
-                 {'component': 'key', 'profile': 'codec', 'quick': 150, 'thorough': 3000}],
+        'jobs': [{'component': 'render', 'profile': 'render', 'quick': 90, 'thorough': 300},
+                 {'component': 'level', 'profile': 'level', 'quick': 1200, 'thorough': 3000, 'project': 'result+sent'},
+                 {'component': 'key', 'profile': 'codec', 'quick': 450, 'thorough': 3000}],
         'exhaustive_note': 'every table-driven renderer over all 256 values of its byte (X4 mode: all combinations of its rendered bits), decoded and edited',
         'assumptions': ['R7: stale derived text after an edit is not a violation; text fields ASCII'],
     },
     'C20': {
-        'jobs': [{'component': 'gpsd', 'profile': 'gpsd', 'quick': 500, 'thorough': 10000},
-                 {'component': 'gpsdtx', 'profile': 'gpsdtx', 'quick': 40, 'thorough': 800}],
+        'jobs': [{'component': 'gpsd', 'profile': 'gpsd', 'quick': 4000, 'thorough': 10000},
+                 {'component': 'gpsdtx', 'profile': 'gpsdtx', 'quick': 120, 'thorough': 800}],
         'trusted': ['bytes.decode / str.splitlines / json.loads are the real ones; the model is handed their per-line outcome'],
         'assumptions': ['partial: gpsd itself; termination of _enable() is not claimed'],
     },
